@@ -95,7 +95,10 @@ META = {
         "configuration stored on the Sphinx environment controls its pickled state (__getstate__) for fields that can hold a function. R20 a "
         "transform that deletes a node attribute reads it only under a membership test (transforms run twice for rST include with :parser:). "
         "R21 the renderer's finalisation drops queued transforms whose pending node left the document. R22 pending(Filter, component=..) "
-        "nodes only name transformer components that always exist (html_meta's component='writer' is a known finding). R5 also flags a "
+        "nodes only name transformer components that always exist (html_meta's component='writer' is a known finding). R23 a loop that "
+        "detaches every node of its collection (parent.remove/replace/index, replace_self) iterates one traversal evaluated at loop start, not a "
+        "list flattened from the traversals of several roots (a node below two roots would be detached twice: ValueError). R18 also rejects a "
+        "package subclass of the sandbox that overrides one of its safety predicates. R5 also flags a "
         "method that re-enters itself without arguments (recursion standing for a loop: depth = number of iterations). R17 accepts a "
         "transition below any parent when a registered transform with a priority below docutils' Transitions replaces every transition whose "
         "parent is not the document / a section (HideNestedTransitions). R11 also requires ignoreInvalid=True when configured names go to MarkdownIt.disable() (it raises "
@@ -3331,18 +3334,48 @@ def r18_document_chosen_code(corpus: Corpus, rep: Report, tier: str):
             )
     # (b) Jinja environments
     n_env = 0
+    _SAFETY = ("is_safe_attribute", "is_safe_callable", "call", "getattr", "getitem", "unsafe_undefined", "call_binop", "call_unop", "format_string")
+
+    def env_class(fi: FunctionInfo, c: ast.Call) -> tuple[str, list[str]] | None:
+        """(jinja2 base class, safety methods overridden by package subclasses on the way) for an Environment constructor."""
+        full = fi.module.resolve(dotted(c.func) or "")
+        if full.startswith("jinja2.") and full.rsplit(".", 1)[-1].endswith("Environment"):
+            return (full, [])
+        ci = corpus.find_class(full) or fi.module.classes.get(dotted(c.func) or "")
+        overridden: list[str] = []
+        seen_ = set()
+        while ci is not None and ci.fq not in seen_:
+            seen_.add(ci.fq)
+            overridden += [m for m in ci.methods if m in _SAFETY]
+            nxt = None
+            for b in ci.bases:
+                if b.startswith("jinja2.") and b.rsplit(".", 1)[-1].endswith("Environment"):
+                    return (b, overridden)
+                nxt = nxt or corpus.find_class(b)
+            ci = nxt
+        return None
+
     for fi in corpus.all_functions():
         if fi.is_lambda:
             continue
         for c in fi.local_nodes():
             if not isinstance(c, ast.Call):
                 continue
-            full = fi.module.resolve(dotted(c.func) or "")
-            if not (full.startswith("jinja2.") and full.rsplit(".", 1)[-1].endswith("Environment")):
+            ec = env_class(fi, c)
+            if ec is None:
                 continue
+            full, overridden = ec
             n_env += 1
             k = f"{fi.fq}|{full.rsplit('.', 1)[-1]}"
-            if "Sandboxed" in full:
+            if "Sandboxed" in full and overridden:
+                rep.violation(
+                    "C01.R18",
+                    k + "|safety predicate overridden",
+                    fi.module.site(c),
+                    f"`{short(c, 60)}` builds a subclass of the jinja2 sandbox that overrides {', '.join(sorted(set(overridden)))}: the sandbox's own predicate also blocks "
+                    "non-dunder internals (gi_frame, f_globals, func_globals, mro, ...); a weaker one lets a document expression reach them and run arbitrary code during the parse",
+                )
+            elif "Sandboxed" in full:
                 rep.ok("C01.R18", k, fi.module.site(c), "sandboxed")
             else:
                 rep.violation(
@@ -3539,11 +3572,107 @@ def r22_pending_components(corpus: Corpus, rep: Report, tier: str):
         rep.ok("C01.R22", "package|pending(Filter)", "myst_parser", "no pending node names a transformer component")
 
 
+# ---------------------------------------------------------------------------
+# R23 a node is taken out of the tree once
+#
+# ``n.parent.remove(n)`` / ``n.parent.index(n)`` / ``n.parent.replace(n, ..)`` raise ValueError when ``n`` is no longer a
+# child of that parent.  A loop that removes every node of its iteration collection is safe when the collection is ONE
+# traversal (each node once) evaluated when the loop starts - ``for root in ROOTS: for n in list(root.findall(T))``
+# re-evaluates the traversal per root, after the removals under the earlier roots.  A collection flattened from the
+# traversals of SEVERAL roots before anything is removed lists a node twice when one root lies inside another (the
+# document and its registered footnotes): the second removal raises.
+
+_TRAVERSALS = ("findall", "traverse", "iter", "walk")
+_DETACH = ("remove", "replace", "index", "pop")
+
+
+def _traversal_roots(e: ast.expr, fi: FunctionInfo, depth: int = 0) -> int | None:
+    """Number of traversal roots flattened into the collection (None: not a traversal collection)."""
+    if depth > 3:
+        return None
+    if isinstance(e, ast.Name):
+        d = _single_def(fi, e)
+        return None if d is e else _traversal_roots(d, fi, depth + 1)
+    if isinstance(e, ast.Call) and dotted(e.func) in ("list", "tuple", "sorted", "reversed") and len(e.args) == 1:
+        return _traversal_roots(e.args[0], fi, depth + 1)
+    if isinstance(e, ast.Call) and dotted(e.func) in ("set", "frozenset") or (isinstance(e, ast.Call) and unparse(e.func) == "dict.fromkeys"):
+        return 1  # de-duplicated
+    if isinstance(e, ast.Call) and isinstance(e.func, ast.Attribute) and e.func.attr in _TRAVERSALS:
+        return 1
+    if isinstance(e, ast.Call) and isinstance(e.func, ast.Call) and (dotted(e.func.func) or "").split(".")[-1] in _TRAVERSALS:
+        return 1  # findall(root)(T)
+    if isinstance(e, (ast.ListComp, ast.GeneratorExp)):
+        gens = e.generators
+        inner = _traversal_roots(gens[-1].iter, fi, depth + 1)
+        if inner is None:
+            return None
+        if len(gens) == 1:
+            return inner
+        # `for root in ROOTS for n in root.findall(T)`: as many roots as ROOTS has (2 = "several")
+        return 2
+    if isinstance(e, ast.BinOp) and isinstance(e.op, ast.Add):
+        l, r = _traversal_roots(e.left, fi, depth + 1), _traversal_roots(e.right, fi, depth + 1)
+        return None if l is None or r is None else l + r
+    if isinstance(e, ast.Call) and (dotted(e.func) or "").split(".")[-1] in ("chain", "from_iterable"):
+        parts = [_traversal_roots(a.value if isinstance(a, ast.Starred) else a, fi, depth + 1) for a in e.args]
+        if parts and all(p_ is not None for p_ in parts):
+            return max(2, sum(parts)) if len(parts) > 1 or isinstance(e.args[0], (ast.Starred, ast.GeneratorExp, ast.ListComp)) else parts[0]
+    return None
+
+
+@rule("C01.R23")
+def r23_single_removal(corpus: Corpus, rep: Report, tier: str):
+    rep.rule("C01.R23", "a loop that detaches every node of its collection iterates ONE traversal evaluated at loop start, not a list flattened from the traversals of several roots")
+    n = 0
+    seen_keys: dict[str, int] = {}
+    for fi in corpus.all_functions():
+        if fi.is_lambda or fi.module.name.endswith("._docs"):
+            continue
+        for lp in fi.local_nodes():
+            if not (isinstance(lp, ast.For) and isinstance(lp.target, ast.Name)):
+                continue
+            v = lp.target.id
+            detaches = [
+                c for b in lp.body for c in ast.walk(b)
+                if isinstance(c, ast.Call) and isinstance(c.func, ast.Attribute)
+                and ((c.func.attr in _DETACH and unparse(c.func.value) == f"{v}.parent" and c.args and unparse(c.args[0]) == v) or (c.func.attr == "replace_self" and unparse(c.func.value) == v))
+            ]
+            if not detaches:
+                continue
+            roots = _traversal_roots(lp.iter, fi)
+            if roots is None:
+                continue
+            n += 1
+            k = f"{fi.fq}|for {v} in {short(lp.iter, 40)}"
+            seen_keys[k] = seen_keys.get(k, 0) + 1
+            if seen_keys[k] > 1:
+                k += f"#{seen_keys[k]}"
+            site = fi.module.site(lp)
+            d0 = detaches[0]
+            guarded = _inside_try_catching(d0, "ValueError") or any(
+                (isinstance(t, ast.Compare) and len(t.ops) == 1 and unparse(t.left) == f"{v}.parent" and isinstance(t.comparators[0], ast.Constant) and t.comparators[0].value is None
+                 and ((isinstance(t.ops[0], ast.IsNot) and pol) or (isinstance(t.ops[0], ast.Is) and not pol)))
+                or (isinstance(t, ast.Compare) and len(t.ops) == 1 and isinstance(t.ops[0], ast.In) and unparse(t.left) == v and pol)
+                for t, pol in _facts_at(fi, d0)
+            )
+            if roots <= 1 or guarded:
+                rep.ok("C01.R23", k, site, "one traversal, evaluated when the loop starts" if roots <= 1 else "the detachment is guarded")
+            else:
+                rep.violation(
+                    "C01.R23",
+                    k,
+                    site,
+                    f"`{short(d0, 40)}` runs for every node of a collection that was flattened from the traversals of several roots before anything was removed: when one root lies "
+                    "inside another (the document and its registered footnotes) a node is listed twice and the second detachment raises ValueError (list.remove / list.index) out of the parse",
+                )
+    rep.expect_min("C01.R23", 2, "loops that detach the nodes of a traversal")
+
+
 RULES = [
     r1_failure_mode_closure, r2_token_line, r3_html_attr_none, r4_reentry_guards, r5_loop_progress, r6_yaml_narrowing, r7_single_registration,
     r8_nullable_env_slots, r9_document_attributes, r10_config_divisors, r11_disable_syntax, r12_handler_attributes, r13_rebound_loop_key,
     r14_heading_offset, r15_registry_none, r16_settings_attributes, r17_transition_parent,
-    r18_document_chosen_code, r19_pickled_config, r20_transform_reapplication, r21_detached_pending, r22_pending_components,
+    r18_document_chosen_code, r19_pickled_config, r20_transform_reapplication, r21_detached_pending, r22_pending_components, r23_single_removal,
 ]
 
 
@@ -3872,6 +4001,41 @@ def mutants(corpus: Corpus):
         out.append(Mutant("c01-disable-ignore-invalid-false", "C01.R11", mdm_.rel, splice(mdm_.src, dcall.args[1], "False"), expect="unknown names"))
     else:
         out.append(("c01-disable-ignore-invalid-dropped", "create_md_parser does not call md.disable(x, True)"))
+    # --- the raw clean-up loops flattened over all roots before anything is removed (R23) ---
+    for modname, q, tag in (("parsers.docutils_", "Parser.parse", "docutils"), ("parsers.sphinx_", "MystParser.parse", "sphinx")):
+        pm = corpus.mod(modname)
+        f = pm.func(q)
+        outer = find_node(f, lambda n: isinstance(n, ast.For) and len(n.body) == 1 and isinstance(n.body[0], ast.For) and isinstance(n.target, ast.Name)
+                          and any(isinstance(c, ast.Call) and isinstance(c.func, ast.Attribute) and c.func.attr == "remove" for c in ast.walk(n.body[0])))
+        if outer is None:
+            out.append((f"c01-raw-cleanup-flattened-{tag}", f"{q}: no nested `for root in ..: for node in root.findall(..)` removal loop"))
+            continue
+        inner = outer.body[0]
+        lines = pm.src.splitlines(keepends=True)
+        ind = " " * outer.col_offset
+        body_lines = lines[inner.body[0].lineno - 1 : inner.body[-1].end_lineno]
+        step = inner.body[0].col_offset - inner.col_offset
+        dedented = "".join(l[step:] if l.startswith(" " * step) else l for l in body_lines)
+        new_text = (
+            f"flat_ = [n_ for {unparse(outer.target)} in {unparse(outer.iter)} for n_ in {unparse(inner.iter)}]\n"
+            f"{ind}for {unparse(inner.target)} in flat_:\n{dedented.rstrip()}"
+        )
+        out.append(Mutant(f"c01-raw-cleanup-flattened-{tag}", "C01.R23", pm.rel, splice(pm.src, outer, new_text), expect="in flat_", canary=(tag == "docutils")))
+    # --- a weakened sandbox subclass for substitutions (R18) ---
+    f = base.func("DocutilsRenderer.render_substitution")
+    envc = find_node(f, lambda n: isinstance(n, ast.Call) and "SandboxedEnvironment" in unparse(n.func))
+    if envc is not None:
+        cls_src = (
+            "class _LaxSandbox(jinja2.sandbox.SandboxedEnvironment):\n"
+            "    def is_safe_attribute(self, obj, attr, value):\n"
+            "        return not attr.startswith('__')\n\n\n"
+        )
+        rcls = base.classes["DocutilsRenderer"].node
+        first = rcls.decorator_list[0] if rcls.decorator_list else rcls
+        src_ = splice(base.src, envc.func, "_LaxSandbox")  # later in the file: splice first
+        marker = ast.Pass(lineno=first.lineno, col_offset=0, end_lineno=first.lineno, end_col_offset=0)
+        src_ = splice(src_, marker, cls_src)
+        out.append(Mutant("c01-substitution-sandbox-predicate-weakened", "C01.R18", base.rel, src_, expect="safety predicate overridden"))
     # --- round 10: repairs of the hunted defects, reverted ---
     # d6174ee: the catch-all around directive_instance.run()
     f = base.func("DocutilsRenderer.run_directive")
